@@ -18,7 +18,9 @@ def rand_doc_runes(rng):
     n = rng.randint(0, 6)
     for _ in range(n):
         k = rng.random()
-        if k < 0.35:
+        if k < 0.04:
+            out += [45, 45, 45, 10] + [ord(c) for c in "t: x"] + [10, 45, 45, 45, 10]
+        elif k < 0.35:
             out += [96, 96, 96]
         elif k < 0.45:
             out += [96] * rng.randint(1, 7)
@@ -41,6 +43,9 @@ def make_md(rng, text):
         blocks.append("\n".join(lines[prev:c]) + "\n")
         prev = c
     md, code = "", ""
+    if rng.random() < 0.3:
+        # YAML front matter, a table rule, a setext underline: lines of dashes are prose like any other
+        md += rng.choice(["---\ntitle: grammar\n---\n", "---\n---\n", "Heading\n---\n", "---\nlayout: page\ntags: [a, b]\n---\n\n"])
     for b in blocks:
         for _ in range(rng.randint(0, 3)):
             md += rng.choice(PROSE) + "\n"
